@@ -145,4 +145,38 @@ def Out.io? : Out → Option IO
   | .shortWrite s _ => some s
   | .outOfFuel => none
 
+/-- The suspending I/O built-ins that have a template, at a resumption point. -/
+inductive Call where
+  | readU8
+  | skip1
+  | skipN (scratch : UInt64)
+  | readEnter (be : Bool) (xx yy : Nat)
+  | readResume (be : Bool) (xx yy : Nat) (scratch : UInt64)
+  | writeU8 (scratch : UInt64)
+  deriving Repr
+
+/-- One resumption of the template. -/
+def run : Call → IO → Out
+  | .readU8, s => readU8 s
+  | .skip1, s => skip1 s
+  | .skipN sc, s => skipN s sc
+  | .readEnter be xx yy, s => readUxxEnter be xx yy s
+  | .readResume be xx yy sc, s => readUxxResume be xx yy s sc
+  | .writeU8 sc, s => writeU8 s sc
+
+/-- Set the `closed` flag of whatever reader/writer an outcome carries. -/
+def Out.setClosed (b : Bool) : Out → Out
+  | .done s v => .done { s with closed := b } v
+  | .shortRead s sc => .shortRead { s with closed := b } sc
+  | .shortWrite s sc => .shortWrite { s with closed := b } sc
+  | .outOfFuel => .outOfFuel
+
+/-- Frame invariant of the pointers: inside the buffer, flag set. -/
+def Inv (s : IO) : Prop := s.iop ≤ s.io2 ∧ s.io2 ≤ s.buf.size ∧ s.ok = true
+
+def isShortReadAt (o : Out) (iop : Nat) (scratch : UInt64) : Bool :=
+  match o with
+  | .shortRead s' sc => s'.iop == iop && sc == scratch
+  | _ => false
+
 end WuffsVerif.Suspend
